@@ -5,7 +5,7 @@ from lv import core, noise, parsers, syntaxgen, syntaximport
 
 ID = 'C15'
 BUDGET = {'quick': 2400, 'thorough': 60000}     # generated programs; 4 parses each
-WALL = {'quick': 600, 'thorough': 3600}
+WALL = {'quick': 1800, 'thorough': 7200}     # safety net only (=> inconclusive shards)
 RULE = ('programs of the syntactic grammar generator lv/syntaxgen.py, printed twice: base '
         'text and a noisy text with whitespace / newlines / tabs / # and /* */ comments '
         'inserted at token boundaries (only bare /* */ inside glued tokens), redundant '
@@ -18,7 +18,7 @@ RULE = ('programs of the syntactic grammar generator lv/syntaxgen.py, printed tw
         'the span of a variable / predicate / boolean / null atom reads exactly that atom; '
         '(c) the set of the_string values equals the set of generated literal contents '
         '(three literal forms; separators, brackets, comment markers, keywords, quotes, '
-        'non-ASCII). Non-trivial: accepted by both parsers with >= 3 noise insertions of '
+        'non-ASCII). Non-trivial: base text accepted by both parsers, >= 3 noise insertions of '
         'which >= 1 comment, or a literal containing syntax characters; distinct by hash of '
         'the noisy text. Input classes of open findings are kept out by construction '
         '(excluded_by_construction counts them; VERIF_SYNTAX_EXCLUDE_<NAME>=0 lets one in).')
@@ -179,6 +179,22 @@ def evaluate_pair(case):
         info[mode] = (sb, sn)
         if sb != 'ok':
             info[mode + '_base_msg'] = tb
+            # (c) the generator's programs are acceptable; if this one is not, but the
+            # same text with every literal's content replaced by plain letters is, then
+            # characters inside a literal were treated as syntax
+            if sn == 'ok':
+                fails.append(('noise_accepted_base_rejected:%s:%s:%s' % (mode, sb, tb),
+                              '%s parser rejects the base text (%s: %s) but accepts its '
+                              'layout variant\nbase:\n%s\nnoisy:\n%s' % (
+                                  mode, sb, tb, case['base'], case['noisy'])))
+            if case.get('base_neutral') is not None:
+                sx, _ = parsers.parse_one(case['base_neutral'], mode, root)
+                if sx == 'ok':
+                    fails.append(('literal_content_rejected:%s:%s:%s' % (mode, sb, tb),
+                                  '%s parser rejects the base text (%s: %s) but accepts it '
+                                  'with the contents of its string literals replaced by '
+                                  'letters\nbase:\n%s\nneutral:\n%s' % (
+                                      mode, sb, tb, case['base'], case['base_neutral'])))
             continue
         fails += check_tree(tb, mode, 'base', set(case['allowed_base']), strings,
                             case['base'], info['excluded'], root is not None)
@@ -266,6 +282,10 @@ def make_case(rng):
             'allowed_noisy': sorted(noisy.allowed_heritage() | file_allowed)}
     if files is not None:
         case['files'] = files
+    if strings:
+        case['base_neutral'] = ''.join(
+            c[0] + ('"s"' if c[2].kind == 'str' else c[2].text) for c in base.cells) + \
+            base.tail[0]
     risks = noisy.risks()
     if risks:
         combos = [[r] for r in risks] + ([risks] if len(risks) > 1 else [])
@@ -302,6 +322,7 @@ def shard(ctx, col):
                 if sn == 'ok':
                     labels.append('base_rejected_noisy_accepted:%s' % mode)
         ok = all(info[m] == ('ok', 'ok') for m in ('PY', 'CPP'))
+        base_ok = all(info[m][0] == 'ok' for m in ('PY', 'CPP'))
         syn = any(any(ch in s for ch in ',;:|~()[]{}#') or '/*' in s
                   for s in case['strings'])
         if syn:
@@ -310,7 +331,7 @@ def shard(ctx, col):
             labels.append('literal_non_ascii')
         n_ins = stats.get('insertions', 0) + stats.get('paren_expr', 0) + \
             stats.get('paren_prop', 0)
-        nt = ok and not fails and ((n_ins >= 3 and stats.get('comment', 0) >= 1) or syn)
+        nt = base_ok and ((n_ins >= 3 and stats.get('comment', 0) >= 1) or syn)
         if ok:
             labels.append('accepted_both')
         if fails:
@@ -335,7 +356,10 @@ def check_case(case):
     parsers.setup()
     case = dict(case)
     case.setdefault('strings', [])
-    case.setdefault('noisy', case['base'])
+    if 'noisy' not in case:
+        case['noisy'] = case['base']
+        if 'allowed_base' in case:
+            case.setdefault('allowed_noisy', case['allowed_base'])
     for which in ('base', 'noisy'):
         if 'allowed_' + which not in case:
             case['allowed_' + which] = naive_statements(case[which])
